@@ -323,7 +323,8 @@ def cframe_tags_covered(prog, fn):
 
 ALLOC_RX = re.compile(r"(alloc::vec::Vec::<T>::with_capacity|alloc::vec::from_elem|alloc::string::String::with_capacity|alloc::collections::vec_deque::VecDeque::<T>::with_capacity"
                       r"|std::collections::hash::\w+::Hash(Map|Set)::<.*>::with_capacity|ahash::hash_(map|set)::AHash(Map|Set)::<.*>::with_capacity|<ahash::hash_(map|set)::AHash(Map|Set)<.*> as ahash::Hash(Map|Set)Ext>::with_capacity"
-                      r"|::reserve$|::reserve_exact$|alloc::vec::Vec::<T, A>::resize|ahash::HashMapExt::with_capacity|ahash::HashSetExt::with_capacity|rbx_dom_weak::dom::WeakDom::reserve)")
+                      r"|::reserve$|::reserve_exact$|alloc::vec::Vec::<T, A>::resize|ahash::HashMapExt::with_capacity|ahash::HashSetExt::with_capacity|rbx_dom_weak::dom::WeakDom::reserve"
+                      r"|^lz4::block::decompress$|^zstd::bulk::decompress$)")  # third-party decompressors allocate their declared output size up front
 READ_RX = re.compile(r"::(read_le_u\d+|read_le_i\d+|read_be_u\d+|read_be_i\d+|read_u8|read_u16|read_u32|read_i32|read_option_u32|read_u64)$")
 HEADER_TYPES = ("rbx_binary::deserializer::header::FileHeader", "rbx_binary::chunk::ChunkHeader")
 
@@ -360,6 +361,8 @@ def taint_of(fn, e, env, depth=6):
         cal = core.callee(e) or ""
         if READ_RX.search(cal):
             return "taint:" + cal.rsplit("::", 1)[-1]
+        if re.search(r"Option::Some$|Result::Ok$|::from$|::try_from$", cal) and len(e["args"]) == 1:
+            return taint_of(fn, e["args"][0], env, depth - 1)
         return "clean"
     if k == "Field":
         base_ty = (core.strip(e["e"]).get("ty") or "").lstrip("&").replace("mut ", "")
